@@ -495,12 +495,26 @@ class BaseParser:
             else:
                 provided[field] = {key: value}
 
-        # 2. parse the provided fields, choosing among several aliases exactly as
-        # field_first_parse does: in the order of field.all_aliases, comparing the raw values
-        for field, values in provided.items():
+        # 2. every field in the order of declaration (the order field_first_parse goes by: it is the order of
+        # the result, in which e.g. the setters of properties are called): parse what was provided, choosing among
+        # several aliases exactly as field_first_parse does (in the order of field.all_aliases, comparing the
+        # raw values); for what was not provided: required or default
+        # (is_required() is False when the required fields are ignored, the defaults still apply)
+        for field in self.fields.values():
             name = field.attname if as_attname else field.name
 
             if excluded_keys and name in excluded_keys:
+                continue
+
+            values = provided.get(field)
+            if values is None:
+                unprovided_fields.add(name)
+                if field.is_required(options=options):
+                    context.handle_error(exc.AbsenceError(item=name))
+                    continue
+                default = field.get_default(options, defer=False)
+                if not unprovided(default):
+                    result[name] = default
                 continue
 
             if len(values) == 1:
@@ -539,22 +553,6 @@ class BaseParser:
                 dependencies.update(
                     field.attr_dependencies if as_attname else field.dependencies
                 )
-
-        # 3. the fields that were not provided: required or default
-        # (is_required() is False when the required fields are ignored, the defaults still apply)
-        for key, field in self.fields.items():
-            if field in provided:
-                continue
-            name = field.attname if as_attname else field.name
-            if excluded_keys and name in excluded_keys:
-                continue
-            unprovided_fields.add(name)
-            if field.is_required(options=options):
-                context.handle_error(exc.AbsenceError(item=name))
-                continue
-            default = field.get_default(options, defer=False)
-            if not unprovided(default):
-                result[name] = default
 
         if dependencies:
             dependant = set(result)
